@@ -22,12 +22,17 @@ structure DS where
   ret : List (Addr × Coins) := []
   stats : List (String × Nat) := []
   nFind : Nat := 0
+  seen : List String := []          -- (kind,name) already reported in this history
+  nSample : Nat := 0
 
 def addTo (m : List (Addr × Coins)) (a : Addr) (c : Coins) : List (Addr × Coins) :=
   if m.any (·.1 == a) then m.map (fun e => if e.1 == a then (e.1, Coins.add e.2 c) else e) else m ++ [(a, c)]
 def getOf (m : List (Addr × Coins)) (a : Addr) : Coins := ((m.find? (·.1 == a)).map (·.2)).getD []
 
 def finding (ds : DS) (kind prop name detail : String) : IO DS := do
+  let key := kind ++ "/" ++ name
+  if ds.seen.contains key then return { ds with nFind := ds.nFind + 1 }
+  let ds := { ds with seen := key :: ds.seen }
   let j := Json.mkObj [("kind", kind), ("prop", prop), ("name", name), ("hist", toString ds.hist), ("line", toString ds.line),
                        ("h", toString ds.h), ("detail", detail)]
   IO.println ("FINDING " ++ j.compress)
@@ -131,8 +136,25 @@ def handleTx (ds : DS) (j : Json) : IO DS := do
           ds ← finding ds "diverge" (OracleD.propsOfFact x) s!"state:{kind}" x
         for x in d do
           ds ← finding ds "diverge" "C14,C01" s!"balance:{kind}" x
+  if ds.nSample < 3 && code == 0 then
+    IO.println ("SAMPLE " ++ (Json.mkObj [("op", Json.arr msgs.toArray), ("signer", J.get j "signer"), ("h", J.get j "h"), ("code", J.get j "code")]).compress)
+    ds := { ds with nSample := ds.nSample + 1 }
+  if ds.hasOracle then
+    for x in OracleD.monStatusChanges preO ds.oracle false ds.h do
+      ds ← finding ds "monitor" "C15" "aggregated_once_at_closing" x
   -- ghost ledger of C14 from observations
   if code == 0 then
+    for m in msgs do
+      match J.strOf m "t" with
+      | "oracle.respond" =>
+        ds := stat ds "mon.c15.respond"
+        if !OracleD.monRespondAccepted preO ds.h (J.strOf m "contract") (J.strOf m "function") (J.intOf m "score") (J.strOf m "op") then
+          ds ← finding ds "monitor" "C15" "response_accepted_wrongly" (m.compress)
+      | "oracle.deleteTask" =>
+        ds := stat ds "mon.c15.delete"
+        if !OracleD.monDeleteAccepted preO ds.h ds.t (J.strOf m "contract") (J.strOf m "function") (J.boolOf m "force") (J.strOf m "deleter") then
+          ds ← finding ds "monitor" "C15" "task_removed_wrongly" (m.compress)
+      | _ => pure ()
     for m in msgs do
       match J.strOf m "t" with
       | "oracle.createOperator" => ds := { ds with dep := addTo ds.dep (J.strOf m "addr") (J.coinsOf m "coll") }
@@ -183,6 +205,21 @@ def handleEnd (ds : DS) (j : Json) : IO DS := do
       for x in f do ds ← finding ds "diverge" (OracleD.propsOfFact x) "state:end" x
       for x in d do ds ← finding ds "diverge" "C15,C01" "balance:end" x
       if !(Oracle.closingAt preO ds.h).isEmpty then ds := stat ds "c15.tasks_closed_blocks"
+    for x in OracleD.monStatusChanges preO ds.oracle true ds.h do
+      ds ← finding ds "monitor" "C15" "aggregated_once_at_closing" x
+    for x in OracleD.monNoMissedAggregation ds.oracle ds.h do
+      ds ← finding ds "monitor" "C15" "aggregated_once_at_closing" ("pending-after-closing-block:" ++ x)
+    for t in ds.oracle.tasks do
+      match OracleD.findT preO t with
+      | some p =>
+        if p.status == 1 && t.status != 1 then
+          ds := stat ds (if t.status == 2 then "sit.c15.task_succeeded" else "sit.c15.task_failed")
+          match OracleD.monAggregation "uctk" preO p t with
+          | some x => ds ← finding ds "monitor" "C15" "aggregation_result" x
+          | none => pure ()
+      | none => pure ()
+    for x in OracleD.monBounty preO ds.oracle ds.h do
+      ds ← finding ds "monitor" "C15" "bounty_bounded" x
   runMonitors ds false
 
 partial def loop (hIn : IO.FS.Stream) (ds : DS) : IO DS := do
@@ -200,7 +237,7 @@ partial def loop (hIn : IO.FS.Stream) (ds : DS) : IO DS := do
           | .obj kvs => kvs.toList.map (fun (k, v) => (k, J.str v))
           | _ => []
         let ds0 : DS := { sys := { names := names }, hist := J.intOf j "seed", line := ds.line, h := J.intOf j "h", t := J.intOf j "t",
-                          stats := ds.stats, nFind := ds.nFind }
+                          stats := ds.stats, nFind := ds.nFind, nSample := ds.nSample }
         let ds0 := loadObs ds0 (J.get j "st")
         runMonitors (stat ds0 "history") false
       | "tx" => handleTx ds j
